@@ -17,41 +17,97 @@ from .report import Ctx, finish, load_known
 ALL = [f"C{i:02d}" for i in range(1, 21)]
 
 
-def run_property(pid, tier, model=None, quiet=False, write=True):
-    t0 = time.time()
-    seed = int(os.environ.get("VERIF_SEED", "0") or 0)
-    ctx = None
+def _evaluate(pid, tier, model, quiet):
+    """Run the rules of one property on one model.  -> (status, ctx, note) with status ok | violation | error."""
+    ctx = Ctx(pid, model, tier, quiet=quiet)
+    mod = importlib.import_module(f"ubcheck.rules.{pid.lower()}")
     try:
-        if model is None:
-            model = Model()
-        ctx = Ctx(pid, model, tier, quiet=quiet)
-        mod = importlib.import_module(f"ubcheck.rules.{pid.lower()}")
         try:
             mod.check(ctx)
         except AnalysisError as e:
             # a rule could not finish; if other rules already found violations, report those (exit 1) and
             # mention the incomplete analysis - otherwise this is exit 2
             if not ctx.findings:
-                raise
-            print(f"ANALYSIS-NOTE property={pid} analysis incomplete after the findings below: {e}")
-            return finish(ctx, t0, seed, {"incomplete": str(e)})
+                return "error", ctx, str(e)
+            return "violation", ctx, f"analysis incomplete after the findings below: {e}"
         if ctx.errors:
             if not ctx.findings:
-                raise AnalysisError("; ".join(ctx.errors))
-            print(f"ANALYSIS-NOTE property={pid} some rules could not finish: {'; '.join(ctx.errors)[:400]}")
-        extra = None
-        if tier == "thorough":
-            from . import mutate
-            extra, bad = mutate.adequacy(pid, mod, ctx)
-            if bad and not ctx.findings:
-                print(f"ANALYSIS-ERROR property={pid} mutation adequacy: {bad}")
-                finish(ctx, t0, seed, extra)
-                return 2
-        return finish(ctx, t0, seed, extra)
+                return "error", ctx, "; ".join(ctx.errors)
+            return "violation", ctx, f"some rules could not finish: {'; '.join(ctx.errors)[:400]}"
+        return ("violation" if _new_findings(ctx) else "ok"), ctx, None
     except AnalysisError as e:
-        print(f"ANALYSIS-ERROR property={pid} {e}")
-        return 2
+        return "error", ctx, str(e)
     except Exception:  # any crash of the checker is an analysis error, never a violation
+        return "error", ctx, "internal error:\n" + traceback.format_exc()
+
+
+def _new_findings(ctx):
+    known = {(k["rule"], k["instance"], k.get("statement", "")) for k in load_known()
+             if k.get("property") == ctx.pid and k.get("status") == "known"}
+    return [o for o in ctx.findings if Ctx.key(o) not in known]
+
+
+def run_property(pid, tier, model=None, quiet=False, write=True):
+    """Evaluate the property's rules on the tree as written (variant 0) and, while some obligation is open, on the
+    increasingly canonicalised *equivalent* variants of canon.py.  The first variant that discharges every obligation
+    decides (the variants have the same behaviour, so a proof for one is a proof for all); a violation is reported only
+    if no variant discharges it, and then from the most canonical variant that produced a verdict."""
+    t0 = time.time()
+    seed = int(os.environ.get("VERIF_SEED", "0") or 0)
+    from . import canon
+    max_level = int(os.environ.get("UBCHECK_CANON", canon.MAX_LEVEL))
+    tried = []
+    prev_log = None
+    try:
+        for level in range(0, max_level + 1):
+            try:
+                m = model if (level == 0 and model is not None) else Model(canon_level=level)
+            except AnalysisError as e:
+                tried.append((level, "error", None, str(e), []))
+                break
+            log = m.canon_log
+            if level > 0 and log == prev_log:
+                continue  # this level changed nothing: same program as the previous variant
+            prev_log = log
+            status, ctx, note = _evaluate(pid, tier, m, quiet)
+            tried.append((level, status, ctx, note, log))
+            if status == "ok":
+                break
+    except Exception:
+        print(f"ANALYSIS-ERROR property={pid} internal error:\n{traceback.format_exc()}")
+        return 2
+    oks = [t for t in tried if t[1] == "ok"]
+    viols = [t for t in tried if t[1] == "violation"]
+    level, status, ctx, note, log = oks[0] if oks else (viols[-1] if viols else tried[0])
+    variants = {"variants_tried": [{"level": t[0], "status": t[1], "transformations": t[4],
+                                    **({"note": (t[3] or "")[:300]} if t[3] else {})} for t in tried],
+                "variant_used": level}
+    if status == "error":
+        print(f"ANALYSIS-ERROR property={pid} {note}")
+        return 2
+    if level and not quiet:
+        print(f"{pid}: verdict taken on canonical variant level {level} "
+              f"({sum(sum(v for k, v in e.items() if k != 'module') for e in log)} equivalence rewrites in "
+              f"{len(log)} module(s); statuses by level: {', '.join(f'{t[0]}={t[1]}' for t in tried)})")
+    if note:
+        print(f"ANALYSIS-NOTE property={pid} {note}")
+    extra = {"canonicalisation": variants}
+    if status == "ok" and tier == "thorough":
+        from . import mutate
+        mod = importlib.import_module(f"ubcheck.rules.{pid.lower()}")
+        try:
+            mextra, bad = mutate.adequacy(pid, mod, ctx)
+        except Exception:
+            print(f"ANALYSIS-ERROR property={pid} internal error:\n{traceback.format_exc()}")
+            return 2
+        extra.update(mextra or {})
+        if bad:
+            print(f"ANALYSIS-ERROR property={pid} mutation adequacy: {bad}")
+            finish(ctx, t0, seed, extra)
+            return 2
+    try:
+        return finish(ctx, t0, seed, extra)
+    except Exception:
         print(f"ANALYSIS-ERROR property={pid} internal error:\n{traceback.format_exc()}")
         return 2
 
